@@ -331,6 +331,8 @@ pub fn family(sc: &Value, r: &mut StdRng) -> Vec<Value> {
     let pb = robots::sibling(&p, r);
     let (mut b, _) = instance_p(sc, pb, Some(&shared), r);
     let (mut a2, _) = instance_p(sc, p, None, &mut r0.clone());
+    let mut a = a;
+    a["member"] = json!("first");
     b["member"] = json!("sibling");
     a2["member"] = json!("again");
     vec![a, b, a2]
@@ -449,7 +451,15 @@ pub fn instance_p(sc: &Value, p: Parameters, shared: Option<&Shared>, r: &mut St
     if reseated { robot.reseat(&pose, &prev, j6, &q, r); }
     // calls
     let ans = call(robot.kin.as_ref(), entry, &pose, &prev, j6);
-    let base = json!({"ev": "ik", "sc": sc["id"], "entry": entry, "dof": dof, "geom": sc["geom"], "stack": sc["stack"], "pose_class": pose_class,
+    // identity of the call: robot description, wrapper stack, limits and every argument, bit for bit
+    let key = {
+        use std::hash::{Hash, Hasher};
+        let mut h = std::collections::hash_map::DefaultHasher::new();
+        format!("{}|{:?}|{:?}|{}", robots::params_json(&p), robot.layers, robot.limits, entry).hash(&mut h);
+        for x in pose.translation.vector.iter().chain(pose.rotation.coords.iter()).chain(prev.iter()).chain(std::iter::once(&j6)) { x.to_bits().hash(&mut h); }
+        format!("{:016x}", h.finish())
+    };
+    let base = json!({"ev": "ik", "member": "single", "key": key, "sc": sc["id"], "entry": entry, "dof": dof, "geom": sc["geom"], "stack": sc["stack"], "pose_class": pose_class,
         "limits_class": sc["limits"], "prev_class": prev_class, "signs": sc["signs"], "offsets": sc["offsets"]});
     let mut ev = base.as_object().unwrap().clone();
     let Some(ans) = ans else {
